@@ -130,10 +130,29 @@ func CheckC17(c *Ctx) {
 				sets = append(sets, [2]string{me.Abv, bad})
 			}
 		}
+		// COMPLETE hostile matrix for Set on a known metric: every metric x every hostile value string (case variants,
+		// look-alikes, encoding twins, padded and over-long values, length wraps) -- an illegal value must cost nothing
+		var hostileSets [][2]string
+		for _, me := range v.Metrics {
+			for _, bad := range hostileValues() {
+				if len(bad) > 4096 {
+					continue // the 64 KB length-wrap strings are measured for the first metric only (below)
+				}
+				hostileSets = append(hostileSets, [2]string{me.Abv, bad})
+			}
+		}
+		for _, bad := range hostileValues() {
+			if len(bad) > 4096 {
+				hostileSets = append(hostileSets, [2]string{v.Metrics[0].Abv, bad})
+			}
+		}
+		c.Extra["hostile_set_arguments_v"+v.Name] = len(hostileSets)
 		for i, s := range inputs {
 			var g []string
 			var st [][2]string
-			if i < 3 { // the full Get/Set matrix on the first three objects (none / all / one)
+			if i == 0 {
+				g, st = gets, append(append([][2]string{}, sets...), hostileSets...)
+			} else if i < 3 { // the full Get/Set matrix on the first three objects (none / all / one)
 				g, st = gets, sets
 			} else { // afterwards a rotating slice of it
 				g = []string{gets[i%len(gets)]}
@@ -247,7 +266,7 @@ func CheckC17(c *Ctx) {
 	c.Extra["toolchain"] = runtime.Version()
 	c.Extra["calls_per_measurement"] = n
 	c.SetReport(Report{
-		Rule:        "steady-state heap allocations per call measured with runtime.MemStats.Mallocs around " + fmt.Sprint(n) + " calls after " + fmt.Sprint(warm) + " warm-up calls, GOMAXPROCS(1), GC off, concrete methods called directly, results kept alive in package-level sinks; minimum over up to 4 repetitions (stray runtime allocations only add). Budget: successful ParseVector <= 1, Vector() == 1, Get/Set on a known metric (legal and illegal values), every scoring method, Rating, Nomenclature == 0. Also measured with MemStats read between a PRECEDING call (each of ~40 valid/invalid vectors per version, every error kind) and the measured call, so that an allocation pushed onto the next call by an earlier one (pool buffer not returned on an error path) is seen. EXHAUSTIVE WALK for Vector(): every configuration of the optional metrics of v2.0 (192,000), and in thorough of v3.0/v3.1 (221,184,000 each) and of v4.0's threat+environmental metrics (1,179,648,000; supplemental seeded per chunk) -- quick: 1 chunk in 25 / 64 -- visited in Gray-code order on a concrete object, each serialisation is followed by ParseVector of the string just produced; allocations counted per block of 32,768 steps (must equal two per step: the string and the returned object; excess re-walked, then bracketed per call: Vector() exactly 1, ParseVector at most 1). CONCURRENT steady state: 16 goroutines on 16 Ps making 20,000 (thorough 200,000) overlapping calls each of ParseVector / Vector / all scoring methods per version on private objects; process-wide allocations per call within 0.02 of the budget. EXHAUSTIVE SCORE WALK for the methods that must not allocate: one object per chunk driven by single legal Set calls through v2.0's 139,968,000 assignments (quick: 3 of 27 chunks), v3.x's 16,588,800 effective classes through base metrics (quick: 2 of 8 chunks) plus all defined Modified assignments over a decoy base x 216 temporal/requirement settings, v4.0's base x defined E/CR/IR/AR x MSI/MSA in {X,S} (34,012,224; quick 1 chunk in 4) and all 15,116,544 classes through Modified metrics over a decoy base (quick 1 in 4): after every step every scoring method (v4: Score, Nomenclature) is called, allocations per block of 32,768 steps must be 0 (excess re-walked, then bracketed per step and method). Inputs: no optional metric, all, every optional metric alone x every value (incl. all U spellings) x 2 base backgrounds, canonical and with every X/ND written explicitly, all-but-one, seeded random subsets/spellings (v3 shuffled). evaluations = measured calls; distinct = distinct input vectors",
+		Rule:        "steady-state heap allocations per call measured with runtime.MemStats.Mallocs around " + fmt.Sprint(n) + " calls after " + fmt.Sprint(warm) + " warm-up calls, GOMAXPROCS(1), GC off, concrete methods called directly, results kept alive in package-level sinks; minimum over up to 4 repetitions (stray runtime allocations only add). Budget: successful ParseVector <= 1, Vector() == 1, Get/Set on a known metric (legal and illegal values; Set also with EVERY hostile value string -- case variants, look-alikes, encoding twins, padded, over-long and length-wrapping values -- on every metric), every scoring method, Rating, Nomenclature == 0. Also measured with MemStats read between a PRECEDING call (each of ~40 valid/invalid vectors per version, every error kind) and the measured call, so that an allocation pushed onto the next call by an earlier one (pool buffer not returned on an error path) is seen. EXHAUSTIVE WALK for Vector(): every configuration of the optional metrics of v2.0 (192,000), and in thorough of v3.0/v3.1 (221,184,000 each) and of v4.0's threat+environmental metrics (1,179,648,000; supplemental seeded per chunk) -- quick: 1 chunk in 25 / 64 -- visited in Gray-code order on a concrete object, each serialisation is followed by ParseVector of the string just produced; allocations counted per block of 32,768 steps (must equal two per step: the string and the returned object; excess re-walked, then bracketed per call: Vector() exactly 1, ParseVector at most 1). CONCURRENT steady state: 16 goroutines on 16 Ps making 20,000 (thorough 200,000) overlapping calls each of ParseVector / Vector / all scoring methods per version on private objects; process-wide allocations per call within 0.02 of the budget. EXHAUSTIVE SCORE WALK for the methods that must not allocate: one object per chunk driven by single legal Set calls through v2.0's 139,968,000 assignments (quick: 3 of 27 chunks), v3.x's 16,588,800 effective classes through base metrics (quick: 2 of 8 chunks) plus all defined Modified assignments over a decoy base x 216 temporal/requirement settings, v4.0's base x defined E/CR/IR/AR x MSI/MSA in {X,S} (34,012,224; quick 1 chunk in 4) and all 15,116,544 classes through Modified metrics over a decoy base (quick 1 in 4): after every step every scoring method (v4: Score, Nomenclature) is called, allocations per block of 32,768 steps must be 0 (excess re-walked, then bracketed per step and method). Inputs: no optional metric, all, every optional metric alone x every value (incl. all U spellings) x 2 base backgrounds, canonical and with every X/ND written explicitly, all-but-one, seeded random subsets/spellings (v3 shuffled). evaluations = measured calls; distinct = distinct input vectors",
 		Assumptions: []string{"a property of the compiled program: decided for the toolchain in this image (" + runtime.Version() + "), plain build (no -race: the race runtime makes sync.Pool drop Puts)"},
 	})
 	c.Finish()
